@@ -94,10 +94,11 @@ def handle (toks : List String) : String :=
         reply [p.from a] [⟨a.value - roundTo a.exp (a.toRat / (1 + b.toRat)), a.exp⟩]
           (small? (a.value * pow10 b.exp) && lt53 f.value) [a.value * pow10 b.exp, f.value]
       | "pctFactor" => reply [p.factor] [specAt b.exp (1 + b.toRat)] true
-      | "pctFromAmount" => if a.exp + 2 > 18 then "undef" else
-          reply [(Pct.ofAmount a).amount] [⟨a.value, a.exp + 2⟩] (small? (a.value * 100)) [a.value * 100]
+      -- the two conversions only move the decimal point: exact for every value; the one
+      -- int64 product is `RescaleUp(2)` of a percentage with fewer than two decimals
+      | "pctFromAmount" => reply [(Pct.ofAmount a).amount] [⟨a.value, a.exp + 2⟩] true
       | "pctAmount" =>
-          reply [(Pct.toAmount ⟨a⟩)] [specAt (a.exp - 2) (a.toRat * 100)] (small? (a.value * 100)) [a.value * 100]
+          reply [(Pct.toAmount ⟨a⟩)] [specAt (a.exp - 2) (a.toRat * 100)] true [a.value * pow10 (2 - a.exp)]
       | "pctRescale" => reply [(Pct.rescale ⟨a⟩ k).amount] [specRescale a k] (domRescale a k) [a.value * pow10 (k - a.exp)]
       | "threshold" =>
           -- a = threshold, b = value, n = operator
